@@ -31,6 +31,7 @@ from ..errors import InvalidRangeName
 from ..cell import Cell, RangesAssembler, Ref, CellWrapper, InvRangesAssembler
 from ..tokens.operand import XlError, _re_sheet_id, _re_build_id
 from ..functions.text import HexValue
+from .. import _verif
 
 log = logging.getLogger(__name__)
 BOOK = sh.Token('Book')
@@ -303,6 +304,7 @@ class ExcelModel:
 
         if cell.add(self.dsp, context=context):
             self.cells[cell.output] = cell
+            if _verif.ON: _verif.emit('add', node=cell.output)
             return cell
 
     def complete(self, stack=None):
@@ -317,6 +319,7 @@ class ExcelModel:
             if isinstance(n_id, sh.Token) or n_id in done:
                 continue
             done.add(n_id)
+            if _verif.ON: _verif.emit('pop', node=n_id)
             if n_id in self.references:
                 stack.extend(self.cells[n_id].inputs or ())
                 continue
@@ -324,6 +327,7 @@ class ExcelModel:
                 rng = Ranges.get_range(n_id, raise_anchor=False)
             except InvalidRangeName:  # Missing Reference.
                 log.warning('Missing Reference `{}`!'.format(n_id))
+                if _verif.ON: _verif.emit('referr', node=n_id, why='name')
                 Ref(n_id, '=#REF!').compile().add(self.dsp)
                 continue
             book = _encode_path(osp.join(
@@ -336,6 +340,10 @@ class ExcelModel:
                 wk, context = self.add_sheet(rng['sheet'], context)
             except Exception as ex:  # Missing excel file or sheet.
                 log.warning('Error in loading `{}`:\n{}'.format(n_id, ex))
+                if _verif.ON: _verif.emit(
+                    'referr', node=n_id, why='book-or-sheet',
+                    exc=type(ex).__name__
+                )
                 Cell(n_id, '=#REF!').compile().add(self.dsp)
                 self.books.pop(book, None)
                 continue
@@ -615,6 +623,9 @@ class ExcelModel:
         }
 
         cycles = list(simple_cycles(dmap.succ, skip_nodes=skip_nodes))
+        if _verif.ON: _verif.emit(
+            'cycles', cycles=[[str(n) for n in c] for c in cycles]
+        )
         cycles_nodes = Counter(sum(cycles, []))
         for cycle in sorted(map(set, cycles)):
             cycles_nodes.subtract(cycle)
@@ -624,6 +635,9 @@ class ExcelModel:
                     break
             else:
                 cycles_nodes.update(cycle)
+                if _verif.ON: _verif.emit(
+                    'mark', nodes=sorted(map(str, cycle.intersection(d_nodes)))
+                )
                 dist = sh.inf(len(cycle) + 1, 0)
                 for k in sorted(cycle.intersection(d_nodes)):
                     dsp.set_default_value(k, ERR_CIRCULAR, dist)
@@ -632,6 +646,9 @@ class ExcelModel:
             dsp.add_data(CIRCULAR, ERR_CIRCULAR)
 
             for k, v in mod.items():
+                if _verif.ON: _verif.emit(
+                    'cut', node=str(k), inputs=sorted(map(str, v))
+                )
                 d = f_nodes[k]
                 d['inputs'] = [CIRCULAR if i in v else i for i in d['inputs']]
                 dmap.remove_edges_from(((i, k) for i in v))
